@@ -44,7 +44,7 @@ def run(ctx):
            pre=['0 <= shape <= 10', '-11 <= a <= 11', '0 <= b <= 1'],
            cells=[('shape%d' % s, ['shape == %d' % s]) for s in range(11)], timeout=tmo,
            desc='unquote(quote(v)) == v through the real base64/json codecs (values realised: ints in -11..11)'),
-        Ob('text_roundtrip', 'ob_text_roundtrip', '', packed=[('pad', 3), ('c1', 10), ('c2', 10), ('shape', 4)], cells=[('pad%d' % i, [{'pad': i}]) for i in range(3)], timeout=tmo, confirm='confirm_text_roundtrip',
+        Ob('text_roundtrip', 'ob_text_roundtrip', '', packed=[('pad', 3), ('c1', 10), ('c2', 10), ('shape', 4)], cells=[('pad%d_c%d' % (i, c), [{'pad': i, 'c1': c}]) for i in range(3) for c in range(10)], timeout=tmo, confirm='confirm_text_roundtrip',
            desc='text values (as value, inside a dict/list, as a key) built from ? > ~ DEL quote backslash space and non-ASCII characters at every base64 alignment (all 64 sextets occur): '
                 'unquote(quote(v)) == v and real serialize -> unserialize gives back exactly the stored data'),
         Ob('serialize_roundtrip', 'ob_serialize_roundtrip', 'shape: int, a: int, flag: bool',
